@@ -56,6 +56,39 @@ impl Prop for TypedForeign {
          the generic read as the reference for values and for the type every record reports. Non-trivial: n>=1"
     }
     fn check(m: &vlib::refcodec::FileModel, ctx: &mut Ctx) -> Result<(), Fail> {
+        // by path, on the same records stored in REVERSE physical order with two filler bytes between them: the generic
+        // one-liner converted to the file's type equals the typed one-liner (one model in four)
+        if m.ty != Ty::Null && m.recs.len() >= 2 && m.recs.iter().all(|r| r.geom.ty == m.ty) && (m.recs.len() + m.ty.code() as usize) % 4 == 0 {
+            let mut lay = m.clone();
+            let n = lay.recs.len();
+            lay.order = (0..n).rev().collect();
+            lay.fillers = (0..=n).map(|_| vec![0xEEu8; 2]).collect();
+            lay.trailing.clear();
+            let enc = refcodec::encode(&lay);
+            let p = crate::common::scratch_dir().join("c06-layout.shp");
+            std::fs::write(&p, &enc.shp).map_err(|e| Fail::new("harness/disk-io", e.to_string()))?;
+            std::fs::write(p.with_extension("shx"), &enc.shx).map_err(|e| Fail::new("harness/disk-io", e.to_string()))?;
+            struct ByPath<'a>(&'a std::path::Path);
+            impl KindFn for ByPath<'_> {
+                type Out = Result<(), Fail>;
+                fn call<K: Kind>(self) -> Self::Out
+                where
+                    Error: From<<K as TryFrom<Shape>>::Error>,
+                {
+                    let generic = shapefile::read_shapes(self.0).map_err(|e| Fail::new("read-error", format!("read_shapes(path) on a reverse-ordered file: {}", err_str(&e))))?;
+                    let typed = shapefile::read_shapes_as::<_, K>(self.0).map_err(|e| Fail::new("read-error", format!("read_shapes_as(path) on a reverse-ordered file: {}", err_str(&e))))?;
+                    let conv = convert_shapes_to_vec_of::<K>(generic).map_err(|e| Fail::new("convert-error", format!("{:?}", e)))?;
+                    ensure!(conv.len() == typed.len(), "typed-vs-generic", "by path, reverse-ordered file: read_shapes gives {} shapes, read_shapes_as {}", conv.len(), typed.len());
+                    for (i, (a, b)) in conv.iter().zip(typed.iter()).enumerate() {
+                        ensure!(a.view() == b.view(), "typed-vs-generic", "by path, reverse-ordered file: shape {} of read_shapes (converted) differs from shape {} of read_shapes_as", i, i);
+                    }
+                    Ok(())
+                }
+            }
+            dispatch(m.ty, ByPath(&p))?;
+            ctx.class("by-path-reverse-layout");
+        }
+
         let enc = refcodec::encode(m);
         let n = m.recs.len();
         if n >= 1 {
